@@ -405,4 +405,28 @@ MUTANTS = [
     Mutant("feature-getitem-no-seqstart", ANN, "                slice_start = loc.first - self._seqstart\n                # +1 due to exclusive stop\n                slice_stop = loc.last - self._seqstart + 1\n                add_seq",
            "                slice_start = loc.first\n                # +1 due to exclusive stop\n                slice_stop = loc.last - self._seqstart + 1\n                add_seq",
            "R1.sequence-subscripted-by-index"),
+    # ---- one seeded fault per remaining rule ----
+    Mutant("revcomp-last-no-revstart", ANN, "                    (seq_len - 1) - (loc.first - self._seqstart) + rev_seqstart\n",
+           "                    (seq_len - 1) - (loc.first - self._seqstart)\n", "R1.location-from-position"),
+    Mutant("revcomp-first-no-seqstart", ANN, "                    (seq_len - 1) - (loc.last - self._seqstart) + rev_seqstart\n",
+           "                    (seq_len - 1) - loc.last + rev_seqstart\n", "R1.location-from-position"),
+    Mutant("clip-keeps-no-defect", ANN, "                        defect = loc.defect\n", "                        defect = Location.Defect.NONE\n",
+           "R2.clip-keeps-strand-and-defect"),
+    Mutant("clip-drops-strand", ANN, "                        locs_in_scope.append(Location(first, last, loc.strand, defect))\n",
+           "                        locs_in_scope.append(Location(first, last, defect=defect))\n", "R2.clip-keeps-strand-and-defect"),
+    Mutant("clip-right-ge", ANN, "                        if loc.last > i_last:\n", "                        if loc.last >= i_last:\n", "R2.clip-right"),
+    Mutant("clip-right-not-clipped", ANN, "                            defect |= Location.Defect.MISS_RIGHT\n                            last = i_last\n",
+           "                            defect |= Location.Defect.MISS_RIGHT\n", "R2.clip-right"),
+    Mutant("mirror-starts-from-original", ANN, "                rev_loc_defect = Location.Defect.NONE\n", "                rev_loc_defect = loc.defect\n",
+           "R2.mirror-starts-empty"),
+    Mutant("overlap-exclusive-stop", ANN, "                    if loc.first <= i_last and loc.last >= i_first:\n", "                    if loc.first < i_last and loc.last >= i_first:\n",
+           "R2.overlap-test"),
+    Mutant("overlap-or", ANN, "                    if loc.first <= i_last and loc.last >= i_first:\n", "                    if loc.first <= i_last or loc.last >= i_first:\n",
+           "R2.overlap-test"),
+    Mutant("revcomp-strand-kept", ANN, "                if loc.strand == Location.Strand.FORWARD:\n                    rev_loc_strand = Location.Strand.REVERSE\n",
+           "                if loc.strand == Location.Strand.REVERSE:\n                    rev_loc_strand = Location.Strand.REVERSE\n", "R2.strand-swapped"),
+    Mutant("feature-qual-shared", ANN, "        return copy.copy(self._qual)\n", "        return self._qual\n", "R3.fresh", "Feature.qual"),
+    Mutant("feature-locs-shared", ANN, "        return copy.copy(self._locs)\n", "        return self._locs\n", "R3.fresh", "Feature.locs"),
+    Mutant("setitem-feature-stop-inclusive", ANN, "                slice_stop = loc.last - self._seqstart + 1\n                interval_size",
+           "                slice_stop = loc.last - self._seqstart\n                interval_size", "R4.same-index-arithmetic"),
 ]
